@@ -258,8 +258,12 @@ fn run_name(cx: &mut Cx, rep: &mut Report, path: &str, origin: &str) {
             rep.count(if dec.contains('%') { "name:with_percent" } else { "name:plain" });
             if let Some(c0) = cx.names.get(&n) {
                 if *c0 != c {
+                    // F20 = the two paths collide under the documented mangling (components joined by '%'); any
+                    // other collision is a different defect
+                    let refm = |v: &Vec<String>| v.iter().map(|x| format!("{x}%")).collect::<String>();
+                    let class = if refm(c0) == refm(&c) { "file-dict-name-collision" } else { "file-dict-name-collision:unexplained" };
                     rep.fail(
-                        "file-dict-name-collision",
+                        class,
                         format!("two different files share the dictionary file {:?}: /{} and /{}", n, c0.join("/"), c.join("/")),
                         json!({"kind": "names", "paths": [format!("/{}", c0.join("/")), path], "origin": origin}),
                     );
@@ -588,6 +592,13 @@ fn run_hist(cx: &mut Cx, rep: &mut Report, h: &Hist, origin: &str) {
             Scope::File(i) => urls.get(*i).and_then(|u| u.path.as_ref().map(|_| u.file_key.clone())),
         }
     };
+    let name_of_key = |k: &str| -> String {
+        if k == "user" {
+            "user".to_string()
+        } else {
+            (0..urls.len()).find(|i| urls[*i].file_key == k).map(|i| h.urls[i].clone()).unwrap_or_else(|| k.to_string())
+        }
+    };
     let dict_path = |s: &Scope| -> Option<PathBuf> {
         match s {
             Scope::User => Some(PathBuf::from(&user)),
@@ -752,7 +763,9 @@ fn run_hist(cx: &mut Cx, rep: &mut Report, h: &Hist, origin: &str) {
                             } else {
                                 "added-word-reported"
                             };
-                            rep.fail(class, format!("{:?} was added (op {ai}) and is reported as misspelt in a later check (op {oi}) of {}", t, h.urls[*ui]), inp.clone());
+                            let involved: Vec<String> = add_log.iter().filter(|(i, k, w)| i > ai && *k != target_of_add && phys(k) == phys(&target_of_add) && w != t && real_id(w) == real_id(t)).map(|(_, k, _)| name_of_key(k)).collect();
+                            let files = if class == "file-scope-leak" { format!(" [files: {} | {}]", name_of_key(&target_of_add), involved.join(", ")) } else { String::new() };
+                            rep.fail(class, format!("{:?} was added (op {ai}) and is reported as misspelt in a later check (op {oi}) of {}{files}", t, h.urls[*ui]), inp.clone());
                         }
                     } else if in_scope.iter().any(|(_, w)| real_id(w) == real_id(t)) {
                         rep.count("oracle:token_is_case_variant_of_added_word(unconstrained)");
@@ -760,9 +773,10 @@ fn run_hist(cx: &mut Cx, rep: &mut Report, h: &Hist, origin: &str) {
                         rep.count("oracle:other_token");
                         if flagged != base_flag {
                             if out_scope.iter().any(|w| real_id(w) == real_id(t)) {
+                                let involved: Vec<String> = add_log.iter().filter(|(_, k, w)| !(k == "user" || *k == my_key) && real_id(w) == real_id(t)).map(|(_, k, _)| name_of_key(k)).collect();
                                 rep.fail(
                                     "file-scope-leak",
-                                    format!("{:?} was only added to the dictionary of another file, yet its report in {} changed ({} -> {})", t, h.urls[*ui], base_flag, flagged),
+                                    format!("{:?} was only added to the dictionary of another file, yet its report in {} changed ({} -> {}) [files: {} | {}]", t, h.urls[*ui], base_flag, flagged, h.urls[*ui], involved.join(", ")),
                                     inp.clone(),
                                 );
                             } else {
@@ -914,7 +928,9 @@ fn run_hist(cx: &mut Cx, rep: &mut Report, h: &Hist, origin: &str) {
                             } else {
                                 "reload"
                             };
-                            rep.fail(class, format!("dictionary {k} reloads to {:?}; missing {:?}, unexpected {:?}", got, missing, extra), inp.clone());
+                            let involved: Vec<String> = key_paths.iter().filter(|(kk, pp)| **kk != k && **pp == p).map(|(kk, _)| name_of_key(kk)).collect();
+                            let files = if class == "file-scope-leak" { format!(" [files: {} | {}]", name_of_key(&k), involved.join(", ")) } else { String::new() };
+                            rep.fail(class, format!("dictionary {k} reloads to {:?}; missing {:?}, unexpected {:?}{files}", got, missing, extra), inp.clone());
                         } else {
                             rep.count("oracle:reload_equal");
                         }
@@ -1204,7 +1220,7 @@ fn gen_pool(r: &mut Rng) -> Vec<String> {
     pool
 }
 
-const URL_POOL: &[&str] = &["f:a/b.txt", "f:a/c.txt", "f:notes.txt", "f:dir with space/x.txt", "f:ünï/çödé.txt", "f:a%b.txt", "f:a/b%c.txt", "f:a/b.txt%", "f:100%/done.txt", "u:Untitled-1"];
+const URL_POOL: &[&str] = &["f:a/b.txt", "f:a/c.txt", "f:c/b.txt", "f:b.txt", "f:notes.txt", "f:dir with space/x.txt", "f:ünï/çödé.txt", "f:a%b.txt", "f:a/b%c.txt", "f:a/b.txt%", "f:100%/done.txt", "u:Untitled-1"];
 
 fn gen_hist(r: &mut Rng, crash: bool, malformed: bool) -> Hist {
     let pool = gen_pool(r);
